@@ -69,6 +69,11 @@ class ExprMixin:
                 self.payload0[ref] = GhostSeqP(ln)
                 self.assume_axiom(ln >= 0)
             return VList(ref)
+        if ty == "intmap":
+            ref = name
+            if ref not in self.payload0:
+                self.payload0[ref] = IntMapP(z3.Array(name + "?in", z3.IntSort(), z3.BoolSort()), z3.Array(name, z3.IntSort(), z3.IntSort()))
+            return VDict(ref)
         if ty in ("opaque", "map", "cache", "optlist"):
             return VObj(name, "<" + ty + ">")
         if ty == "none":
@@ -142,6 +147,8 @@ class ExprMixin:
             return self.list_len(p) > 0
         if isinstance(v, VTuple):
             return z3.BoolVal(len(v.items) > 0)
+        if isinstance(v, VDict) and isinstance(self.get_payload(v.ref, self.use_old), IntMapP):
+            raise Unsupported("truthiness of an int map")
         if isinstance(v, VDict):
             return z3.BoolVal(len(self.get_payload(v.ref).items) > 0)
         if isinstance(v, (VObj, VFunc, VElem)):
@@ -611,6 +618,11 @@ class ExprMixin:
                 self.safe_or_raise(z3.BoolVal(False), "IndexError", node, fr, "subscript")
                 raise PathEnd()
             raise Unsupported("symbolic index into tuple")
+        if isinstance(base, VDict) and isinstance(self.get_payload(base.ref, self.use_old), IntMapP):
+            p = self.get_payload(base.ref, self.use_old)
+            k = self.as_int(idx)
+            self.safe_or_raise(z3.Select(p.keys, k), "KeyError", node, fr, "subscript")
+            return VInt(z3.Select(p.vals, k))
         if isinstance(base, VDict):
             p = self.get_payload(base.ref)
             if isinstance(idx, VStr) and idx.kind == "lit":
@@ -726,6 +738,8 @@ class ExprMixin:
                 return z3.And(pa.len == pb.len, z3.ForAll([k], z3.Implies(z3.And(0 <= k, k < pa.len), pa.arr[k] == pb.arr[k])))
         if isinstance(a, VSeqZ) and isinstance(b, VSeqZ):
             return a.t == b.t
+        if isinstance(a, VDict) and isinstance(b, VDict):
+            return z3.BoolVal(a.ref == b.ref)
         if isinstance(a, (VInt, VBool)) and isinstance(b, (VStr, VAtom)) or isinstance(b, (VInt, VBool)) and isinstance(a, (VStr, VAtom)):
             return z3.BoolVal(False)
         raise Unsupported(f"== on {a!r} and {b!r}")
@@ -803,6 +817,8 @@ class ExprMixin:
         return self.contains_special(container, x, node, fr)
 
     def contains_special(self, container, x, node, fr):
+        if isinstance(container, VDict) and isinstance(self.get_payload(container.ref, self.use_old), IntMapP):
+            return z3.Select(self.get_payload(container.ref, self.use_old).keys, self.as_int(x))
         if isinstance(container, VAtom):
             # membership in an opaque immutable list value (Rule.alt): uninterpreted predicate
             xv = x.t if isinstance(x, VAtom) else (z3.IntVal(intern_atom(x.a)) if isinstance(x, VStr) and x.kind == "lit" else None)
